@@ -136,6 +136,20 @@ class C03(PureCheck):
                     items = [bytes([97 + j % 26]) for j in range(pad)] + [K] + [bytes([65 + j % 26]) for j in range(12)]
                     yield {"op": "pipe", "items": [list(x) for x in items], "enc": enc}
                 yield {"op": "pipe", "items": [[97], list(K), [98]], "enc": enc, "highfd": 1}    # descriptor number above 256
+        # characters that a text renderer would join to their neighbour - combining marks of several scripts and classes,
+        # ZWJ / variation selectors, enclosing marks, Hangul jamo, regional indicators, a musical combining stem outside the
+        # BMP - right behind a letter, a digit, a wide character or an escape-sequence key, in one read and handed over whole:
+        # each is a keypress of its own
+        joiners = [0x0301, 0x0308, 0x0345, 0x05B0, 0x0651, 0x093C, 0x0E31, 0x20DD, 0x200D, 0xFE0F, 0x1161, 0x11A8, 0x1D165, 0x1F1E9, 0xE0101, 0x3099]
+        bases = [b"e", b"A", b"7", "\u05d0".encode(), "\u1100".encode(), "\u65e5".encode(), "\U0001f1e9".encode(), b"\x1b[A"]
+        for jn, j in enumerate(joiners):
+            J = chr(j).encode()
+            for bn, B in enumerate(bases):
+                if tier == "thorough" or (jn + bn) % 2 == 0 or bn == 0:
+                    items = [B, J, b"x"] if (jn + bn) % 3 else [b"c", b"a", b"f", B, J, J]
+                    mode = ("curtsies", "bytes", "curses")[(jn + bn) % 3] if B[:1] != b"\x1b" else "bytes"
+                    yield {"op": "pipe", "items": [list(x) for x in items], "enc": "utf8", "mode": mode}
+                    yield {"op": "pipe", "items": [list(x) for x in items], "enc": "utf8", "pieces": [len(items)], "mode": "curtsies" if mode == "bytes" and B[:1] != b"\x1b" else mode}
         # the same end-to-end statement for bytes that arrive through unget_bytes in several pieces, a request after
         # each piece: later pieces arrive while earlier keypresses are still buffered
         for enc in encs:
@@ -207,9 +221,9 @@ class C03(PureCheck):
         if inp["op"] == "pipe":
             ev = dict(inp)
             if inp.get("pieces"):
-                ev.update(keylib.run_unget(T, [bytes(x) for x in inp["items"]], inp["pieces"], inp["enc"], self.pipe, ctx=bool(inp.get("ctx")), sigint=bool(inp.get("sigint"))))
+                ev.update(keylib.run_unget(T, [bytes(x) for x in inp["items"]], inp["pieces"], inp["enc"], self.pipe, ctx=bool(inp.get("ctx")), sigint=bool(inp.get("sigint")), mode=inp.get("mode", "bytes")))
             else:
-                ev.update(keylib.run_pipe(T, [bytes(x) for x in inp["items"]], inp["enc"], self.pipe, highfd=bool(inp.get("highfd")), sigint=bool(inp.get("sigint"))))
+                ev.update(keylib.run_pipe(T, [bytes(x) for x in inp["items"]], inp["enc"], self.pipe, highfd=bool(inp.get("highfd")), sigint=bool(inp.get("sigint")), mode=inp.get("mode", "bytes")))
             return ev
         if inp["op"] == "stream":
             ev = dict(inp)
